@@ -134,6 +134,10 @@ fn check(c: &Case, obs: &mut Obs) -> Result<(), Fail> {
     }
     // (2) every key-locked spent input and collateral input has a witness from its payment key
     for u in &f.utxos {
+        // reference inputs are only read: their owners do not sign
+        if u.role == "reference" {
+            continue;
+        }
         if let Some(k) = u.key_locked_by {
             let h = key(k).hash;
             pv_ensure!(wl.iter().any(|(pk, sg)| b224(pk) == h && dalek_ok(pk, sg, &id)), format!("missing-witness-accepted:{}:{}", era.name(), u.role),
